@@ -55,3 +55,61 @@ func init() {
 		}
 	})
 }
+
+// VerifEnvelope is the projection of the EXCEPTION batch metadata the server
+// writes for err.
+type VerifEnvelope struct {
+	Type, Message, LogMessage, Kind string
+	HasTraceback, HasFrames        bool
+}
+
+// VerifErrorEnvelope computes what writeErrorBatch puts on the wire for err.
+func VerifErrorEnvelope(err error, debug bool) VerifEnvelope {
+	var ex errorExtra
+	_ = json.Unmarshal([]byte(buildErrorExtra(err, debug)), &ex)
+	env := VerifEnvelope{Type: ex.ExceptionType, Message: ex.ExceptionMessage, LogMessage: err.Error(),
+		HasTraceback: ex.Traceback != "", HasFrames: len(ex.Frames) > 0}
+	if carrier, ok := err.(errorKindCarrier); ok {
+		env.Kind = carrier.ErrorKind()
+	}
+	return env
+}
+
+// VerifFrameworkError builds one of the typed framework errors by name.
+func VerifFrameworkError(name, text string) error {
+	switch name {
+	case "notimpl":
+		return &MethodNotImplementedError{Method: text}
+	case "notimpl_msg":
+		return &MethodNotImplementedError{Method: "m", Message: text}
+	case "protover":
+		return &ProtocolVersionError{Message: text}
+	case "sessionlost":
+		return &SessionLostError{Reason: text}
+	case "draining":
+		return &ServerDrainingError{}
+	case "extcap":
+		return &externalCapError{msg: text}
+	}
+	return nil
+}
+
+func init() {
+	verifConstProviders = append(verifConstProviders, func() []VerifConst {
+		ty := func(e error) string { return VerifErrorEnvelope(e, false).Type }
+		kd := func(e error) string { return VerifErrorEnvelope(e, false).Kind }
+		return []VerifConst{
+			verifBytes("c05_notimpl_type", ty(&MethodNotImplementedError{})),
+			verifBytes("c05_notimpl_kind", kd(&MethodNotImplementedError{})),
+			verifBytes("c05_notimpl_default_prefix", "Unknown method: '"),
+			verifBytes("c05_sessionlost_type", ty(&SessionLostError{})),
+			verifBytes("c05_sessionlost_kind", kd(&SessionLostError{})),
+			verifBytes("c05_sessionlost_default", (&SessionLostError{}).Error()),
+			verifBytes("c05_draining_type", ty(&ServerDrainingError{})),
+			verifBytes("c05_draining_kind", kd(&ServerDrainingError{})),
+			verifBytes("c05_draining_text", (&ServerDrainingError{}).Error()),
+			verifBytes("c05_extcap_type", ty(&externalCapError{})),
+			verifBytes("c05_extcap_kind", kd(&externalCapError{})),
+		}
+	})
+}
